@@ -249,7 +249,7 @@ def _parse_output(res: TlcResult) -> None:
         m = re.search(r'Action property (\S+) is violated', res.out)
         if m:
             res.violated = m.group(1)
-        elif 'Temporal properties were violated' in res.out:
+        elif re.search(r'Temporal propert(?:y|ies) .{0,200}?(?:was|were) violated', res.out):
             res.violated = 'temporal'
         elif 'Deadlock reached' in res.out:
             res.violated = 'deadlock'
